@@ -22,6 +22,16 @@ Three streams of histories, in this order:
   3. the flat random histories (`gen_history`).
 A snapshot of an object is n_modes, input_modes, heralds, U_full, U, whether it still compiles (and the
 error class when not) and get_all_params (identity, value and bounds of every Parameter).
+
+A fourth stream, run right after the corpus, is about FAMILIES: circuits related by copy(), copy(freeze_parameters=True),
+`a + b`, `b + a` (and further: copies of sums, sums of copies, parents they were added to).  copy() and + are shallow, so
+the members of a family hold the very same component objects; every later edit or REWRITE of one member (bs / ps / loss /
+mode_swaps / add / herald, unpack_groups, compress_mode_swaps, remove_non_adjacent_bs) must work on its own copies.  The
+members are filled with what the rewrites act on - runs of >= 2 mode swaps that compress_mode_swaps merges (next to each
+other, with a component between them on modes the later swap does not touch, behind a blocked swap), beam splitters on
+non-adjacent modes, grouped blocks - so that a rewrite of one member really rewrites components the others still hold.
+`shape_family*` are the directed forms, `gen_family` the random one; the frame oracle (every live object compared with
+its own snapshot after every call) is the one of the other streams.
 """
 
 from __future__ import annotations
@@ -46,7 +56,7 @@ ASSUMPTIONS = ["histories: 5-40 calls over 2-9 live circuits (<= 6 user modes) i
                "Parameters are never re-set inside a history (C10 owns that): the model sees a Parameter as its value"]
 
 TARGET = {"new": 1, "unitary": 1, "bs": 1, "ps": 1, "loss": 1, "barrier": 1, "swaps": 1, "herald": 1, "add": 1,
-          "plus": 1, "copy": 1, "unpack": 1, "compress": 1, "nonadj": 1}
+          "plus": 1, "copy": 1, "copyf": 1, "unpack": 1, "compress": 1, "nonadj": 1}
 
 
 snap = cx.snap
@@ -309,6 +319,179 @@ def shape_self_and_repeat(b: cx.Book) -> None:
     b.add("P0", "b0", b.ports["P0"] - b.free["b0"] + 1, False)  # oversize: rejected, nothing may change
 
 
+# --------------------------------------------------------------------------- families
+#
+# copy() and a + b hand the SAME component objects to the new circuit.  A rewrite that builds its new spec from the
+# old components (merging a later swap into an earlier ModeSwaps, replacing a beam splitter, unpacking a Group) has
+# to do so on per-component copies, or every relative changes with it - silently, and only when the rewrite has
+# something to do.  So the members are filled with work for every rewrite, and every relative stays alive.
+
+
+def _fill(b: cx.Book, cid: str, rich: bool = True) -> None:
+    """content the rewrites act on: runs of mergeable swaps (at least one when `rich`), a beam splitter on
+    non-adjacent modes, a grouped block, ordinary primitives"""
+    rng = b.rng
+    n = b.ports[cid]
+    runs = 0
+    for _ in range(rng.randint(2, 4)):
+        r = rng.random()
+        if r < 0.5:
+            runs += b.swap_run(cid) is not None
+        elif r < 0.7:
+            b.prim(cid, k=rng.randint(1, 2))
+        elif r < 0.85 and n >= 3:
+            m1 = rng.randrange(n - 2)
+            op = cg.op_bs(cid, m1, rng.randint(m1 + 2, n - 1), *rng.choice(PYTH))
+            if rng.random() < 0.3:
+                op[2], op[3] = op[3], op[2]
+            b.size.prim(op)
+            b.prog.append(op)
+        else:
+            lid = f"g{len(b.prog)}"
+            _leaf(b, lid, rng.choice(["unitary", "circuit"]))
+            if rng.random() < 0.4:
+                b.swap_run(lid)  # swaps inside a group are left alone by the rewrite, before and after unpacking they are not
+            b.add(cid, lid, b.place_mode(cid, lid), True)
+    if rich and not runs:
+        b.swap_run(cid)
+
+
+def _derive(b: cx.Book, new: str, how: str, x: str, y: str | None = None) -> str:
+    if how == "copy":
+        b.copy(new, x)
+        b.relate(new, x)
+    elif how == "copyf":
+        b.copyf(new, x)
+    else:
+        n0 = len(b.prog)
+        b.plus(new, x, y)
+        b.relate(new, *(b.prog[n0][2:4] if b.prog[n0][0] == "plus" else [x]))
+    return new
+
+
+def _rewrite(ctx: Ctx, b: cx.Book, cid: str, op: str) -> None:
+    if op == "compress":
+        if b.mergeable.get(cid) and b.shares.get(cid):
+            ctx.count("family:compress:member-with-mergeable-swaps-shared-with-a-relative")
+        b.mergeable[cid] = 0
+    b.prog.append([op, cid])
+    ctx.count("family:rewrite:" + op)
+
+
+def shape_family(b: cx.Book, ctx: Ctx | None = None) -> None:
+    """a and b (same size, swap-rich); k = a.copy(), f = a.copy(freeze), s = a + b, t = b + a, P with a added; then three
+    of them are rewritten one after the other (compress first), with edits in between"""
+    rng = b.rng
+    n = rng.randint(3, 5)
+    b.new("a0", n)
+    _fill(b, "a0")
+    b.new("b0", n)
+    _fill(b, "b0", rich=rng.random() < 0.7)
+    _derive(b, "k0", "copy", "a0")
+    _derive(b, "f0", "copyf", "a0")
+    _derive(b, "s0", "plus", "a0", "b0")
+    _derive(b, "t0", "plus", "b0", "a0")
+    b.new("P0", n + rng.randint(0, 1))
+    b.add("P0", "a0", b.place_mode("P0", "a0"), rng.random() < 0.3)
+    order = ["k0", "s0", "a0", "t0", "f0", "b0", "P0"]
+    rng.shuffle(order)
+    for k, cid in enumerate(order[:4]):
+        _rewrite(ctx or _NOCTX, b, cid, "compress" if k == 0 or rng.random() < 0.5 else rng.choice(["nonadj", "unpack", "compress"]))
+        if rng.random() < 0.5:
+            b.prim(rng.choice(order), k=1)
+
+
+def shape_family_chain(b: cx.Book, ctx: Ctx | None = None) -> None:
+    """relatives of relatives: a copy of a sum, a sum of copies, a copy of a copy; an edit (swaps appended to one member
+    only) between deriving and rewriting; the rewrite happens on the far end of the chain and on the origin"""
+    rng = b.rng
+    n = rng.randint(2, 4)
+    b.new("a0", n)
+    _fill(b, "a0")
+    _derive(b, "k0", "copy", "a0")
+    _derive(b, "k1", rng.choice(["copy", "copy", "copyf"]), "k0")
+    _derive(b, "s0", "plus", "k0", "a0")
+    _derive(b, "s1", "copy", "s0")
+    _derive(b, "s2", "plus", "s1", "k1")
+    b.swap_run(rng.choice(["a0", "k0", "s1"]))
+    ends = ["s2", "a0", "k1", "s1", "s0", "k0"]
+    for k, cid in enumerate([ends[0], ends[1], rng.choice(ends[2:])]):
+        _rewrite(ctx or _NOCTX, b, cid, "compress" if k < 2 else rng.choice(["compress", "nonadj", "unpack"]))
+    b.small_heralded("h0")
+    tgt = rng.choice(ends)
+    b.add(tgt, "h0", rng.randint(0, max(0, b.ports[tgt] - 1)), rng.random() < 0.5)
+    b.herald(rng.choice(ends))
+    _rewrite(ctx or _NOCTX, b, rng.choice(ends), "compress")
+
+
+class _NoCtx:
+    def count(self, *_a, **_k) -> None:
+        pass
+
+
+_NOCTX = _NoCtx()
+
+
+def gen_family(ctx: Ctx, rng) -> tuple[list, list]:
+    """random family: 1-2 origins, 3-6 relatives derived from any member made so far, then 4-9 steps each of which
+    edits or rewrites ONE member (or derives a further relative)"""
+    b = cx.Book(rng, p_param=rng.choice([0.0, 0.25, 0.5]))
+    n = rng.randint(2, 5)
+    members = []
+    for k in range(rng.randint(1, 2)):
+        b.new(f"a{k}", n)
+        _fill(b, f"a{k}", rich=rng.random() < 0.85)
+        members.append(f"a{k}")
+    parents = []
+    helper = None
+
+    def derive(tag: str) -> None:
+        how = rng.choice(["copy", "copy", "copyf", "plus", "plus", "parent"])
+        x = rng.choice(members)
+        if how == "parent":
+            pid = f"P{tag}"
+            b.new(pid, n + rng.randint(0, 2))
+            b.add(pid, x, b.place_mode(pid, x), rng.random() < 0.4)
+            parents.append(pid)
+        else:
+            y = rng.choice(members)
+            members.append(_derive(b, f"{how[0]}{tag}", how, *((x, y) if rng.random() < 0.5 else (y, x)) if how == "plus" else (x,)))
+        ctx.count("family:derive:" + how)
+
+    for k in range(rng.randint(3, 6)):
+        derive(str(k))
+    for step in range(rng.randint(4, ctx.n(9, 12))):
+        r = rng.random()
+        cid = rng.choice(members if rng.random() < 0.85 or not parents else parents)
+        if r < 0.38:
+            _rewrite(ctx, b, cid, "compress")
+        elif r < 0.5:
+            _rewrite(ctx, b, cid, rng.choice(["nonadj", "unpack"]))
+        elif r < 0.62:
+            b.prim(cid, p_invalid=0.15)
+            ctx.count("family:edit:primitive")
+        elif r < 0.72:
+            b.swap_run(cid)
+            ctx.count("family:edit:more-mergeable-swaps")
+        elif r < 0.8:
+            if helper is None:
+                helper = b.small_heralded("h0")
+            b.add(cid, helper, b.place_mode(cid, helper, rng.random() < 0.5), rng.random() < 0.5)
+            ctx.count("family:edit:add-heralded")
+        elif r < 0.86:
+            b.herald(cid)
+            ctx.count("family:edit:herald")
+        elif r < 0.92:
+            sub = rng.choice(members)
+            b.add(cid, sub, b.place_mode(cid, sub), rng.random() < 0.4)
+            ctx.count("family:edit:add-a-relative")
+        else:
+            derive(f"x{step}")
+    return b.prog, b.ids
+
+
+FAMILY = [shape_family, shape_family_chain]
+
 CORPUS = [shape_tile, shape_depth2, shape_ancilla_in_span, shape_shared_components, shape_shared_child,
           shape_params_heralds, shape_self_and_repeat]
 
@@ -394,11 +577,11 @@ def block_stats(ctx: Ctx, prog: list, res: list) -> None:
             continue
         if op[0] == "herald":
             heralded.add(op[1])
-        elif op[0] in ("copy", "plus"):
+        elif op[0] in ("copy", "copyf", "plus"):
             srcs = op[2:4] if op[0] == "plus" else op[2:3]
             if any(s_ in grouped for s_ in srcs):
                 grouped.add(op[1])
-            if op[0] == "copy" and op[2] in heralded:
+            if op[0] in ("copy", "copyf") and op[2] in heralded:
                 heralded.add(op[1])
         elif op[0] == "unpack":
             grouped.discard(op[1])
@@ -444,7 +627,7 @@ def run_case(ctx: Ctx, prog: list, ids: list, model: bool = True) -> list[str]:
     if not model:
         return probs
     live = [i for i in ids if i in pool]
-    mres = ctx.model.call({"op": "circ", "prog": prog, "observe": live, "each": True})
+    mres = ctx.model.call({"op": "circ", "prog": cx.for_model(prog), "observe": live, "each": True})
     for k, (a, b) in enumerate(zip(res, mres["results"])):
         if a != b:
             probs.append(f"corr: call #{k} {prog[k][:5]} impl={a} model={b}")
@@ -604,7 +787,7 @@ def _report(ctx: Ctx, prog: list, ids: list, probs: list, model: bool) -> None:
     ctx.count("histories_with_problems")
 
     def still(sub):
-        return cg.well_formed(sub) and bool(run_case(ctx, sub, ids, model))
+        return cx.well_formed(sub) and bool(run_case(ctx, sub, ids, model))
 
     small = ddmin(prog, still)
     sprobs = run_case(ctx, small, ids, model) or probs
@@ -635,7 +818,11 @@ def _one(ctx: Ctx, prog: list, ids: list, model: bool, sample: bool, blocks: boo
 
 
 def run(ctx: Ctx) -> None:
-    ctx.rule = ("(1) directed building-block corpus, (2) random tiered histories (leaf -> cell holding grouped blocks -> "
+    ctx.rule = ("(1) directed building-block corpus, (1b) families of circuits related by copy() / copy(freeze_parameters=True) "
+                "/ a + b / b + a (and copies of sums, sums of copies, parents), filled with runs of >= 2 mergeable mode swaps, "
+                "non-adjacent beam splitters and grouped blocks, of which ONE member at a time is edited or rewritten "
+                "(compress_mode_swaps, remove_non_adjacent_bs, unpack_groups, bs/ps/loss/mode_swaps/add/herald), "
+                "(2) random tiered histories (leaf -> cell holding grouped blocks -> "
                 "wrapper -> parents; placements grouped/ungrouped at mode 0 and > 0, repeated, into two parents; copies "
                 "and sums sharing components; Parameters; heralds; rejected calls), (3) random flat histories of 5-30 "
                 "construction calls over 2-5 live circuit objects, objects reused as arguments (including "
@@ -652,6 +839,22 @@ def run(ctx: Ctx) -> None:
             shape(b)
             ctx.count("corpus:" + shape.__name__)
             _one(ctx, b.prog, b.ids, True, sample=(rep == 0 and shape is shape_tile), blocks=True)
+    # 1b. families: directed shapes, then random ones (half of them with the model)
+    for rep in range(ctx.n(4, 30)):
+        for shape in FAMILY:
+            if ctx.out_of_time():
+                break
+            b = cx.Book(rng, p_param=0.25)
+            shape(b, ctx)
+            ctx.count("corpus:" + shape.__name__)
+            _one(ctx, b.prog, b.ids, rep % 2 == 0, sample=False, blocks=False)
+    for i in range(ctx.n(32, 600)):
+        if ctx.out_of_time():
+            break
+        prog, ids = gen_family(ctx, rng)
+        model = i % 2 == 0
+        ctx.count("family:with-model" if model else "family:oracle-only")
+        _one(ctx, prog, ids, model, sample=i == 1, blocks=False)
     # 2. random tiered histories
     for i in range(ctx.n(60, 2500)):
         if ctx.out_of_time():
